@@ -21,3 +21,20 @@ func init() {
 			"histories avoid InsertContainer for an unknown pod, SetResourceUpdates on containers without Linux resources and GetAffinity on orphaned containers: they panic at this commit and are C14's subject",
 		}})
 }
+
+func init() {
+	e1 := []string{
+		"the container runtime is a model: pods/containers with the kubelet's cgroup encodings, lifecycle rules of containerd (a failed CreateContainer is followed by Stop/RemoveContainer events, one live instance per container name per pod) and the told view (initial values + adjustment + every update); NRI transport, ttrpc and real cgroups are not run",
+		"machines are generated (1-4 packages x 1-2 dies x 1-2 NUMA nodes x 1-8 cores x 1-2 threads, <= 64 CPUs (32 in the quick tier), isolated CPUs, CPU-less PMEM/HBM nodes, memory-less and movable-only nodes, hybrid cores, optional die/cluster/cache/cpufreq files) and rendered as sysfs; nothing of the host's /sys is read except what pkg/topology derives for non-existent device paths",
+		"pod-resources client absent, agent in local-config mode (no API server); cold-start completion events are not delivered (the event loop drops policy events at this commit)",
+		"map iteration order in all nri-plugins packages is the seeded order of verifrt; goroutines spawned by instrumented code run to completion at the spawn point",
+	}
+	rule := func(extra string) string {
+		return "one case = one seeded run: generated machine + generated accepted policy configuration + 15-80 operations (RunPodSandbox, CreateContainer, StartContainer, UpdateContainer, StopContainer, RemoveContainer, StopPodSandbox, RemovePodSandbox, reconfigure identical/valid/invalid, clean restart + Synchronize with containers vanishing meanwhile, Synchronize) over pods of every QoS class, namespaces incl. kube-system and reserved ones, and the policy's annotations; oracles run after every request. A state is the hash of the told view of all live containers plus the policy snapshot (grants or balloons); distinct_nontrivial counts distinct states reached by runs with >= 2 successful requests or >= 1 failed/fault request. " + extra
+	}
+	reg("C01", &propCfg{Engine: "nrisim", Level: "exploration", QuickRuns: 2600, ThorRuns: 120000, QuickSecs: 80, ThorSecs: 1200, Rule: rule("Policy: topology-aware."), Assumptions: e1})
+	reg("C02", &propCfg{Engine: "nrisim", Level: "exploration", QuickRuns: 2600, ThorRuns: 120000, QuickSecs: 80, ThorSecs: 1200, Rule: rule("Policy: balloons; histories without UpdateContainer (the property quantifies over create/stop/remove/synchronize/reconfigure)."), Assumptions: e1})
+	reg("C03", &propCfg{Engine: "nrisim", Level: "exploration", QuickRuns: 2600, ThorRuns: 120000, QuickSecs: 80, ThorSecs: 1200, Rule: rule("Policy: topology-aware; workload biased to fill pools to the last milli-CPU. The eligibility clause is an input-space rule checked on the containers the histories create, against a reference model written from the documentation."), Assumptions: e1})
+	reg("C05", &propCfg{Engine: "nrisim", Level: "exploration", QuickRuns: 2600, ThorRuns: 120000, QuickSecs: 80, ThorSecs: 1200, Rule: rule("Both policies."), Assumptions: e1})
+	reg("C12", &propCfg{Engine: "nrisim", Level: "exploration", QuickRuns: 2600, ThorRuns: 120000, QuickSecs: 80, ThorSecs: 1200, Rule: rule("Both policies; workload biased towards preserve annotations, pinCPU/pinMemory off and balloon-type overrides."), Assumptions: e1})
+}
